@@ -11,7 +11,9 @@ structure of them) and the carrier object handed to the library:
   ["b", bits]                    binary string "0b<bits>" (value depends on destination format)
   ["h", hexdigits]               hex string "0x<digits>"   (value depends on destination format)
   ["l", [valspec, ...]]          list          ["t", [valspec, ...]]  tuple
-  ["a", dtype, shape, [[num, exp], ...]]   ndarray of that dtype, C order
+  ["a", dtype, shape, [[num, exp], ...]]   ndarray of that dtype, C order; an optional fifth item gives
+                                           the memory layout: "F" column-major, "S" strided view of a
+                                           larger array, "R" reversed (negative stride)
 
 `exact(spec, fmt)` returns (shape, flat list of Fraction); `carrier(spec)` builds a fresh
 Python object every time it is called (so the library can never alias a previous one).
@@ -175,7 +177,18 @@ def carrier(spec):
             flat = [int(v) for v in vals]
         else:
             flat = [math.ldexp(n, e) for n, e in spec[3]]
-        return np.array(flat, dtype=dt).reshape(tuple(spec[2]))
+        arr = np.array(flat, dtype=dt).reshape(tuple(spec[2]))
+        layout = spec[4] if len(spec) > 4 else 'C'
+        if layout == 'F':
+            arr = np.asfortranarray(arr)                 # column-major buffer
+        elif layout == 'S' and arr.ndim >= 1 and arr.size:
+            big = np.zeros(tuple(2 * n for n in arr.shape), dtype=dt)
+            view = big[tuple(slice(None, None, 2) for _ in arr.shape)]
+            view[...] = arr
+            arr = view                                    # a strided, non-contiguous view of a larger array
+        elif layout == 'R' and arr.ndim >= 1:
+            arr = arr[::-1].copy()[::-1]                  # negative stride along the first axis
+        return arr
     raise ValueError('bad valspec %r' % (spec,))
 
 
